@@ -72,6 +72,9 @@ func (SlidingWindow) New(cfg Config) fiber.Handler {
 		// Increment hits
 		e.currHits++
 
+		// Remember the window that counts this request
+		windowExp := e.exp
+
 		// Calculate when it resets in seconds
 		resetInSec := e.exp - ts
 
@@ -121,9 +124,23 @@ func (SlidingWindow) New(cfg Config) fiber.Handler {
 			// Lock entry
 			mux.Lock()
 			e = manager.get(key)
-			e.currHits--
-			remaining++
-			manager.set(key, e, cfg.Expiration)
+			// Un-count the request only where it was counted: in the current window,
+			// or in the previous one if the window has rolled over meanwhile
+			switch {
+			case e.exp == windowExp:
+				e.currHits--
+				remaining++
+			case e.exp == windowExp+expiration && e.prevHits > 0:
+				e.prevHits--
+			}
+			if e.exp != 0 {
+				// keep the entry alive as long as the counting path does
+				ttl := expiration
+				if now := uint64(utils.Timestamp()); e.exp > now {
+					ttl += e.exp - now
+				}
+				manager.set(key, e, time.Duration(ttl)*time.Second) //nolint:gosec // Not a concern
+			}
 			// Unlock entry
 			mux.Unlock()
 		}
